@@ -43,6 +43,8 @@ def _describe(o):
 
 
 class ReqPy(Sym):
+    strict_isinstance = True   # code that inspects requires_python (isinstance / attributes) is not parametric in it
+
     def __repr__(self):
         return "REQUIRES_PYTHON"
 
@@ -226,3 +228,51 @@ class TagsDomain:
                 return any(member(r, v) for r in o.f.get("ranges") or ())
             raise AnalysisError(f"wheel range of unexpected class {n}")
         return frozenset(g for g in GRID if member(s, pkgmodel.Version(f"{g[0]}.{g[1]}.{g[2]}")))
+
+
+# ------------------------------------------------------------------------------------------------ concrete requires_python grid
+# bounds deliberately fall on minors of the tag vocabulary (0, 7, 10, 13, 20) with micro components, inclusive/exclusive ends,
+# single points, unions and exclusions — narrow/wide pairs for the monotonicity clause included
+RP_GRID = [">=3.8", "<3.8", "<3.7.5", ">=3.6,<3.7.5", "==3.7.2", ">=3.7.1,<3.7.5,!=3.7.3", "<3.10.3", ">=3.7,<3.10.3", "==3.10.0", "<=3.10",
+           ">=3.7,<=3.10.0", "<3.7||==3.13.0", "!=3.10.*", ">=2.7,<3.13.2", "<2.7.5", "~=3.10.1", ">3.10.5", ">=3.7.3,<3.7.9", "<3.0.1",
+           "==3.*", ">=4", ">=3.8,<3.11.4", "<3.8||==3.12.0", ">=3.6,<3.10", "<=3.7", "<3.13", "==3.13.*", ">=3.20.1"]
+FINE = [(M, m, p) for M in (2, 3, 4) for m in list(range(0, 15)) + [20, 21] for p in (0, 1, 2, 3, 4, 5, 8, 9)]
+
+
+def rp_fine_set(text):
+    def one(t, v):
+        if "||" in t:
+            return any(one(x, v) for x in t.split("||"))
+        return pkgmodel.SpecifierSetVal(t).sym_contains(v)
+    return frozenset(g for g in FINE if one(text, pkgmodel.Version(f"{g[0]}.{g[1]}.{g[2]}")))
+
+
+def concrete_work(task):
+    """-> list of (rp_text, impl, ptag, abi, got, expected) mismatches + count, for one requires_python text"""
+    src, rp_text = task
+    dom = TagsDomain(src)
+    it = dom.it
+    pvs = it.resolve(it.module("dep_logic.specifiers").ns["parse_version_specifier"])
+    rp = it.call(pvs, [rp_text], {})
+    rpset = rp_fine_set(rp_text)
+    f, _ = dom.EnvSpec.lookup("_evaluate_python")
+    out, n = [], 0
+    table = {}
+    for impl in IMPLS:
+        spec = dom.envspec(rp, None, impl)
+        for pt in python_tags():
+            for abi in abi_tags(pt):
+                n += 1
+                try:
+                    r = it.call(Bound(f, spec), [pt, abi], {})
+                    got = None if r is None else tuple(r)
+                except PyRaise as e:
+                    got = ("raise", repr(e.exc))
+                exp = rule_table(pt, abi, impl)
+                if exp is not None:
+                    mm = {(g[0], g[1]) for g in exp[0]}
+                    exp = exp[1] if any((g[0], g[1]) in mm for g in rpset) else None
+                table[(impl, pt, abi)] = got
+                if got != exp:
+                    out.append((rp_text, impl, pt, abi, got, exp))
+    return {"n": n, "mismatches": out, "rp": rp_text, "accepted": {k for k, v in table.items() if v is not None and not (isinstance(v, tuple) and v and v[0] == "raise")}}
